@@ -145,7 +145,8 @@ Definition sym_init : sst := mkS 0 SInit [].
     (another thread / the callback ran), the saved words at and above the saved rsp are
     those of the suspension; everything below the saved rsp is unknown *)
 Definition sym_resume (t : sst) : sst :=
-  mkS (sd t - 8) (fun _ => STop) (filter (fun kv => fst kv <=? sd t) (sl t)).
+  mkS (sd t - 8) (fun _ => STop)
+      (filter (fun kv => (RED_ZONE <? fst kv) && (fst kv <=? sd t)) (sl t)).
 
 Definition is_init (r : reg) (v : sv) : bool := sv_eqb v (SInit r).
 
@@ -168,10 +169,24 @@ Definition sym_site (p : parts) : option (sst * sst) :=
   | _, _ => None
   end.
 
+(** (distance of the saved rsp below the rsp at the asm statement, register that held the address of
+    the context record at the asm statement) of a suspending site *)
+Definition site_summary (s : site) : option (Z * reg) :=
+  match site_parts (code s) with
+  | Some p =>
+      match p_save p, sym_site p with
+      | Some (_, r), Some (t1, _) =>
+          match origin (sr t1 r) with Some r0 => Some (sd t1, r0) | None => None end
+      | _, _ => None
+      end
+  | None => None
+  end.
+
 Definition declared_dead (s : site) (r : reg) : bool := reg_in r (outs s ++ clobs s).
 
 (** the registers the tail reads still hold declared input operands *)
 Definition input_ok (s : site) (t : sst) (r : reg) : bool :=
+  negb (is_rsp r) &&
   match origin (sr t r) with Some r0 => reg_in r0 (ins s) | None => false end.
 
 Definition tail_ok (s : site) (p : parts) (t : sst) : bool :=
